@@ -218,6 +218,7 @@ type LexParams struct {
 	MaxRecordSize, MaxDecompressedChunkSize                       int
 	Custom                                                        bool
 	ContinueAfterInvalid                                          bool
+	PropagateAttErr                                               bool
 	MaxEvents                                                     int
 }
 
@@ -253,6 +254,9 @@ func LexAll(r io.Reader, p LexParams, keepRaw bool) (res LexResult) {
 			data, err := io.ReadAll(ar.Data())
 			ev.Data = data
 			if err != nil {
+				if p.PropagateAttErr {
+					return err // behave like a consumer that reports its read failure
+				}
 				ev.ReadErr = err.Error()
 			}
 			if c, err := ar.ComputedCRC(); err != nil {
@@ -261,6 +265,9 @@ func LexAll(r io.Reader, p LexParams, keepRaw bool) (res LexResult) {
 				ev.ComputedCRC = c
 			}
 			if c, err := ar.ParsedCRC(); err != nil {
+				if p.PropagateAttErr {
+					return err
+				}
 				ev.ParsedErr = err.Error()
 			} else {
 				ev.ParsedCRC = c
